@@ -19,10 +19,11 @@ import (
 // is primary, PagerSim readers on every node reading through the page cache,
 // a seeded scheduler deciding every interleaving, and a fault menu.
 type clusterSim struct {
-	r   *Run
-	cl  *Cluster
-	s   *Sched
-	ims *ImageStore
+	onRestart func(n *Node) // called after a node came back on its image
+	r         *Run
+	cl        *Cluster
+	s         *Sched
+	ims       *ImageStore
 
 	dbs      []string
 	pageSize uint32
@@ -291,7 +292,10 @@ func (cs *clusterSim) readOnce(n *Node, db string, t *Tape) {
 		}
 		return
 	}
-	if !hdr.WAL && c.hotJournalProbe() {
+	if c.hotJournalProbe() {
+		// A fresh connection looks for a hot journal before it reads page 1 (and
+		// therefore before it knows about WAL mode: an interrupted transaction
+		// that switches the journal mode leaves a header that says anything).
 		// SQLite would have to roll the hot journal back before reading (and
 		// cannot on a node without write authority): it never reads this state.
 		c.UnlockAll()
@@ -418,6 +422,9 @@ func (cs *clusterSim) restart(n *Node) {
 	}
 	cs.r.Count("fault.restart")
 	cs.r.Logf("restart %s", n.Name)
+	if cs.onRestart != nil {
+		cs.onRestart(n)
+	}
 }
 
 // faultActions is the fault menu available at this moment.
